@@ -98,7 +98,7 @@ def run(ctx):
     names = list(CODECS)
     for codec, sample in CODECS.items():
         for decl in ["none", "comment", "known", "both-agree", "both-conflict", "bom", "bom-comment-utf8", "bom-comment-other", "comment-wrong", "known-empty"]:
-            for as_str in (False, True):
+            for as_str, corrupt in ((False, b""), (True, b""), (False, b" \xff\xfe tail"), (False, b" \xe3\x81"), (False, b" caf\xe9 ")):
                 other = names[(names.index(codec) + 3) % len(names)]
                 comment_codec = {"comment": codec, "both-agree": codec, "both-conflict": codec, "bom-comment-utf8": "utf-8",
                                  "bom-comment-other": codec if codec != "utf-8" else "latin-1", "comment-wrong": "ascii"}.get(decl)
@@ -109,12 +109,12 @@ def run(ctx):
                 if decl == "none" or decl == "known-empty":
                     real = "utf-8"
                 try:
-                    data = text if as_str else (codecs.BOM_UTF8 if bom else b"") + text.encode(real)
+                    data = text if as_str else (codecs.BOM_UTF8 if bom else b"") + text.encode(real) + corrupt
                 except UnicodeEncodeError:
                     continue
                 grid += 1
                 ctx.evaluations += 1
-                ctx.nontrivial.add((codec, decl, as_str))
+                ctx.nontrivial.add((codec, decl, as_str, corrupt))
                 lx = Lexer("", input_encoding=known)
                 try:
                     e, t = lx.decode_raw_stream(data, True, known, "f")
@@ -127,14 +127,17 @@ def run(ctx):
                 if as_str:
                     want = ("ok", comment_codec or known or "utf-8", text)
                 elif bom:
-                    want = ("compile-error",) if (comment_codec and comment_codec != "utf-8") else ("ok", "utf-8", text)
+                    try:
+                        want = ("compile-error",) if (comment_codec and comment_codec != "utf-8") else ("ok", "utf-8", data[3:].decode("utf-8"))
+                    except UnicodeDecodeError:
+                        want = ("compile-error",)
                 else:
                     chosen = comment_codec or known or "utf-8"
                     try:
                         want = ("ok", chosen, data.decode(chosen))
                     except UnicodeDecodeError:
                         want = ("compile-error",)
-                case = {"codec": codec, "declaration": decl, "given_as": "str" if as_str else "bytes", "input_encoding": known, "data": repr(data)[:200]}
+                case = {"codec": codec, "declaration": decl, "given_as": "str" if as_str else "bytes", "input_encoding": known, "data": repr(data)[:400], "corrupt_tail": repr(corrupt)}
                 if impl[0] != want[0] or (want[0] == "ok" and (impl[1].lower(), impl[2]) != (want[1].lower(), want[2])):
                     ctx.violation(dict(case, got=repr(impl)[:300], expected=repr(want)[:300]),
                                   "decode_raw_stream does not follow comment > input_encoding > utf-8 / BOM rules", tags=["c18.decision." + decl])
@@ -159,8 +162,8 @@ def run(ctx):
                 if m.startswith("bytes|"):
                     e = dec(m.split("|")[1])
                     try:
-                        eval(case["data"]).decode(e) if len(case["data"]) < 200 else None
-                        if len(case["data"]) < 200:
+                        eval(case["data"]).decode(e) if len(case["data"]) < 400 else None
+                        if len(case["data"]) < 400:
                             disagreements.append(("decide", case, m, g))
                     except (UnicodeDecodeError, LookupError):
                         pass
@@ -184,6 +187,9 @@ def run(ctx):
                 except UnicodeEncodeError:
                     continue
                 kw = {"input_encoding": codec} if decl == "known" else {}
+                # options that change the head of the generated module (where the module's own coding comment must stay first)
+                opt_i = (list(CODECS).index(codec) + ["comment", "known", "bom", "none"].index(decl)) % 3
+                kw.update([{}, {"future_imports": ["annotations"]}, {"imports": ["import os"], "future_imports": ["annotations"]}][opt_i])
                 fn = os.path.join(workdir, "t_%s_%s.mako" % (codec.replace("-", "_"), decl))
                 with open(fn, "wb") as f:
                     f.write(data)
@@ -195,7 +201,7 @@ def run(ctx):
                     ctx.nontrivial.add((codec, decl, path))
                     try:
                         if path == "text":
-                            outs[path] = Template(text).render_unicode(x="X")
+                            outs[path] = Template(text, **{k_: v_ for k_, v_ in kw.items() if k_ != "input_encoding"}).render_unicode(x="X")
                         elif path == "bytes":
                             outs[path] = Template(data, **kw).render_unicode(x="X")
                         elif path == "file":
@@ -211,7 +217,7 @@ def run(ctx):
                         outs[path] = "raised %s: %s" % (type(ex).__name__, str(ex)[:100])
                 for path, out in outs.items():
                     if out != want:
-                        ctx.violation({"codec": codec, "declaration": decl, "path": path, "rendered": out[:300], "expected": want[:300], "source_bytes": repr(data)[:300]},
+                        ctx.violation({"codec": codec, "declaration": decl, "path": path, "options": repr(kw), "rendered": out[:300], "expected": want[:300], "source_bytes": repr(data)[:300]},
                                       "the template does not render as its decoded text", tags=["c18.roundtrip." + path])
                         break
         # undecodable input and BOM conflicts are CompileExceptions at the Template level too
